@@ -192,6 +192,7 @@ fn enum_chunk(chunk: u64, max_len: u32, n_strings: u64) -> CaseOut {
     let hi = (lo + CHUNK).min(n_strings);
     let mut evals = 0;
     let mut nontrivial_hash = 0u64;
+    let mut seen: std::collections::BTreeSet<&'static str> = Default::default();
     for si in lo..hi {
         let t = nth_string(si, max_len);
         for (ctx, pre, post) in CONTEXTS {
@@ -201,12 +202,13 @@ fn enum_chunk(chunk: u64, max_len: u32, n_strings: u64) -> CaseOut {
                 if cls.starts_with("accept") || cls == "reject:integer" {
                     nontrivial_hash ^= hash_bytes(line.as_bytes());
                 }
-                if si % 64 == 0 {
-                    out.class(cls);
-                    out.class(*ctx);
-                }
+                seen.insert(cls);
+                seen.insert(*ctx);
             }
         }
+    }
+    for c in seen {
+        out.class(c);
     }
     out.evals = evals;
     out.nontrivial = Some(nontrivial_hash ^ chunk);
@@ -404,6 +406,13 @@ fn machine_case(seed: u64, i: u64) -> CaseOut {
     let mut cmds: Vec<Cmd> = Vec::new();
     let mut lines: Vec<String> = Vec::new();
     for _ in 0..40 {
+        if rng.chance(1, 8) {
+            // multi-byte text travels through the same reader: must neither panic nor shift later commands
+            let l = format!("echo {}", rng.s(&["caf\u{e9}", "\u{20ac}ab", "\u{1F34B}", "a\u{e9}b\u{2713}", "\u{ff12}"]));
+            cmds.push(Cmd::Inspect(l.clone()));
+            lines.push(l);
+            continue;
+        }
         let t = pool(&mut rng);
         let line = match rng.below(3) {
             0 => format!("move r1 {}", t),
